@@ -4,7 +4,7 @@
   onset.validate, beat.validate, segment.validate_boundary, segment.validate_structure, chord.validate,
   melody.validate_voicing, melody.validate, multipitch.validate, transcription.validate_intervals,
   transcription.validate, transcription_velocity.validate, tempo.validate_tempi, tempo.validate, key.validate,
-  pattern.validate, alignment.validate
+  pattern.validate, alignment.validate, hierarchy.validate_hier_intervals
 
 This file maps syntax only (Python ast, mir_eval is never imported; anything outside the fragment raises
 TranslationError). What an operator does on each kind of value (arrays with a shape, 0-d arrays, empty arrays,
@@ -12,7 +12,7 @@ lists, lazy and / or, truth values, loops) is defined by the evaluator of Model/
 proves each program equal to the hand-written model validator.
 
 Accepted fragment
-  statements   x = <expr> | x, y = <expr>
+  statements   x = <expr> | x, y = <expr> | x |= <expr> | x -= <expr>   (read as x = x | <expr>, x = x - <expr>)
                if <expr>: <block> [else: <block>]      (CWarnIf when the body is only warnings.warn and there is no else)
                for <name or tuple of names> in <expr>: <block>          (no else / break / continue)
                raise <BuiltinError>(<message>)          the calls inside the message (x.max(), x.min()) are evaluated first
@@ -25,7 +25,7 @@ Accepted fragment
                x.ndim x.size x.shape[i] len(x) x[i] x[-1] x[:, j] x[1:] x[:-1],
                np.abs np.diff np.isfinite np.logical_and np.logical_or np.allclose(a, b) isinstance(x, np.ndarray),
                x.any() x.all() x.min() x.max() x.sum() np.any np.all np.min np.max (one positional argument),
-               calls of CALLEES.
+               enumerate(x[, <literal start>]) set(x), calls of CALLEES (also reached through `from .<module> import f`).
 What this file decides itself: which function a call denotes (import forms are checked), the positional order of keyword
 arguments and defaults (from the callee's def), which names are locals (Python's rule: assigned anywhere in the function)
 and which are module constants, and that the message of a raise / warning has no effect beyond the calls it keeps.
@@ -47,7 +47,8 @@ SPEC = [('util', 'validate_intervals'), ('util', 'validate_events'), ('util', 'v
         ('tempo', 'validate_tempi'), ('tempo', 'validate'),
         ('key', 'validate'),
         ('pattern', 'validate'),
-        ('alignment', 'validate')]
+        ('alignment', 'validate'),
+        ('hierarchy', 'validate_hier_intervals')]
 # functions that may be called: (module, function) -> constructor of ArrExp.callee
 CALLEES = {('util', 'validate_events'): 'F_util_validate_events',
            ('util', 'validate_intervals'): 'F_util_validate_intervals',
@@ -57,13 +58,16 @@ CALLEES = {('util', 'validate_events'): 'F_util_validate_events',
            ('transcription', 'validate'): 'F_transcription_validate',
            ('tempo', 'validate_tempi'): 'F_tempo_validate_tempi',
            ('key', 'validate_key'): 'F_key_validate_key',
-           ('pattern', '_n_onset_midi'): 'F_pattern_n_onset_midi'}
+           ('pattern', '_n_onset_midi'): 'F_pattern_n_onset_midi',
+           ('util', 'generate_labels'): 'F_util_generate_labels',
+           ('util', 'intervals_to_boundaries'): 'F_util_intervals_to_boundaries',
+           ('segment', 'validate_structure'): 'F_segment_validate_structure'}
 SIBLINGS = {'util', 'transcription'}          # modules reached as  <name>.<function>
 EXN = {'ValueError', 'TypeError', 'KeyError', 'IndexError', 'ZeroDivisionError'}
 CMP = {ast.Eq: 'VEq', ast.NotEq: 'VNe', ast.Lt: 'VLt', ast.LtE: 'VLe', ast.Gt: 'VGt', ast.GtE: 'VGe'}
 BIN = {ast.Sub: 'OpSub', ast.BitOr: 'OpBitOr'}
 RED = {'any': 'RAny', 'all': 'RAll', 'min': 'RMinV', 'max': 'RMaxV', 'sum': 'RSum'}
-RESERVED = {'np', 'warnings', 'len', 'isinstance', 'type', 'util', 'transcription', 'True', 'False', 'None'}
+RESERVED = {'np', 'warnings', 'len', 'isinstance', 'type', 'set', 'enumerate', 'util', 'transcription', 'True', 'False', 'None'}
 
 
 def fail(msg, node=None):
@@ -91,6 +95,7 @@ class Mod:
         self.tree = module(name)
         self.funcs = {}
         self.siblings = set()      # names bound to sibling modules of mir_eval
+        self.imported = {}         # f -> (module, f) for  from .<module> import f
         self.np = self.warnings = False
         self.consts = {}
         assigned = {}
@@ -111,6 +116,9 @@ class Mod:
                     bound = al.asname or al.name
                     if pkg and al.asname is None and al.name in SIBLINGS:
                         self.siblings.add(al.name)
+                    elif n.level == 1 and n.module and '.' not in n.module and al.asname is None \
+                            and (n.module, al.name) in CALLEES and bound not in self.imported:
+                        self.imported[bound] = (n.module, al.name)
                     elif bound in RESERVED | SIBLINGS or (name, bound) in CALLEES:
                         fail('%s: unexpected import binding %s' % (name, bound))
             elif isinstance(n, (ast.Assign, ast.AugAssign, ast.AnnAssign)):
@@ -140,8 +148,11 @@ class Mod:
                         assigned[x.name] = assigned.get(x.name, 0) + 2
         self.assigned = assigned
         for x in assigned:
-            if x in RESERVED | SIBLINGS or x in self.funcs:
+            if x in RESERVED | SIBLINGS or x in self.funcs or x in self.imported:
                 fail('%s rebinds %s at module level' % (name, x))
+        for f in self.imported:
+            if f in self.funcs:
+                fail('%s both imports and defines %s' % (name, f))
         for f, defs in self.funcs.items():
             if f in RESERVED | SIBLINGS:
                 fail('%s defines a function named %s' % (name, f))
@@ -195,7 +206,7 @@ class Fn:
         if isinstance(c, float) and c == c and abs(c) < 1e300:
             return '(AFloat %s%%Q)' % cq_Q(c)
         if isinstance(c, str) and c.isascii():
-            return '(AStr [%s])' % '; '.join(str(ord(ch)) for ch in c)
+            return '(AStr [%s]%%nat)' % '; '.join(str(ord(ch)) for ch in c)
         fail('unsupported literal', node)
 
     def var(self, name, node):
@@ -294,6 +305,8 @@ class Fn:
         """(module, function) denoted by the callee expression, or None"""
         if isinstance(f, ast.Name) and f.id not in self.locals and f.id in self.m.funcs:
             return (self.mod, f.id)
+        if isinstance(f, ast.Name) and f.id not in self.locals and f.id in self.m.imported:
+            return self.m.imported[f.id]
         if isinstance(f, ast.Attribute) and isinstance(f.value, ast.Name) and f.value.id in self.m.siblings \
                 and f.value.id not in self.locals:
             return (f.value.id, f.attr)
@@ -366,6 +379,16 @@ class Fn:
                 return '(ALen %s)' % self.ex(n.args[0])
             if f.id == 'isinstance' and k == 2 and self.is_np(n.args[1], 'ndarray'):
                 return '(AIsArray %s)' % self.ex(n.args[0])
+            if f.id == 'set' and k == 1:
+                return '(ASet %s)' % self.ex(n.args[0])
+            if f.id == 'enumerate' and k in (1, 2):
+                start = 0
+                if k == 2:
+                    c = n.args[1]
+                    if not (isinstance(c, ast.Constant) and type(c.value) is int and 0 <= c.value < 2 ** 31):
+                        fail('enumerate needs a literal start', n)
+                    start = c.value
+                return '(AEnumerate %s (%d)%%Z)' % (self.ex(n.args[0]), start)
         fail('call outside the accepted fragment', n)
 
     # ---------- messages of raise / warnings.warn ----------
@@ -452,6 +475,11 @@ class Fn:
             if len(s.targets) != 1:
                 fail('chained assignment', s)
             return ['CAssign %s %s' % (self.target(s.targets[0], s), self.ex(s.value))]
+        if isinstance(s, ast.AugAssign):
+            if type(s.op) not in BIN or not isinstance(s.target, ast.Name):
+                fail('unsupported augmented assignment', s)
+            x = s.target.id
+            return ['CAssign %s (ABin %s (AVar %s) %s)' % (self.target(s.target, s), BIN[type(s.op)], coq_str(x), self.ex(s.value))]
         if isinstance(s, ast.If):
             c = self.ex(s.test)
             if not s.orelse and all(self.is_warn(x) for x in s.body):
@@ -487,7 +515,7 @@ class Fn:
             fail('%s.%s: non-literal default' % (self.mod, fn.name))
         for sub in ast.walk(fn):
             if isinstance(sub, (ast.Lambda, ast.FunctionDef, ast.AsyncFunctionDef, ast.ClassDef, ast.Global, ast.Nonlocal, ast.NamedExpr,
-                                ast.Await, ast.Yield, ast.YieldFrom, ast.While, ast.Try, ast.With, ast.Starred, ast.AugAssign,
+                                ast.Await, ast.Yield, ast.YieldFrom, ast.While, ast.Try, ast.With, ast.Starred,
                                 ast.AnnAssign, ast.Delete, ast.Import, ast.ImportFrom, ast.Return, ast.ListComp, ast.SetComp,
                                 ast.DictComp, ast.GeneratorExp, ast.IfExp, ast.Assert)) and sub is not fn:
                 fail('%s.%s: unsupported construct' % (self.mod, fn.name), sub)
